@@ -24,6 +24,12 @@ const ERRNOS: [&str; 3] = ["ENOSPC", "EIO", "EACCES"];
 fn payload(kind: &str) -> Vec<(String, Vec<u8>)> {
     match kind {
         "small" => vec![("a\\one.txt".into(), b"first file".to_vec()), ("b\\two.bin".into(), gen::content("period251", 300, 4096, 1))],
+        // many members and a 200 KiB incompressible one: the writer needs many write calls
+        "large" => {
+            let mut v: Vec<(String, Vec<u8>)> = (0..60).map(|k| (format!("many\\f{k:03}.dat"), gen::content(gen::TEXTURES[k % 4], 100 + 37 * k, 4096, 10 + k as u64))).collect();
+            v.push(("big\\blob.bin".into(), gen::content("incompressible", 200 * 1024 + 3, 4096, 9)));
+            v
+        }
         _ => vec![
             ("a\\one.txt".into(), b"first file".to_vec()),
             ("big\\multi.bin".into(), gen::content("half", 3 * 4096 + 77, 4096, 2)),
@@ -48,9 +54,15 @@ fn driver(args: &[String]) -> ! {
     let res: Result<(), String> = match args[0].as_str() {
         "build" => {
             let (ver, dest, kind) = (&args[1], &args[2], &args[3]);
+            let full = args.get(4).map(|s| s == "full").unwrap_or(false);
             let mut b = ArchiveBuilder::new().version(versions(ver)).block_size(3);
-            for (n, d) in payload(kind) {
-                b = b.add_file_data(d, &n);
+            if full {
+                // every optional writer stage: generated listfile, full (attributes), sector checksums,
+                // compressed tables (V3/V4), an encrypted member
+                b = b.listfile_option(ListfileOption::Generate).attributes_option(wow_mpq::AttributesOption::GenerateFull).generate_crcs(true).compress_tables(true);
+            }
+            for (k, (n, d)) in payload(kind).into_iter().enumerate() {
+                b = if full && k == 0 { b.add_file_data_with_encryption(d, &n, 0x02, true, 0) } else { b.add_file_data(d, &n) };
             }
             b.build(dest).map_err(|e| e.to_string())
         }
@@ -103,6 +115,26 @@ fn histories(tier: Tier) -> Vec<History> {
             }
         }
     }
+    if tier == Tier::Thorough {
+        // every optional writer stage switched on, and a payload that needs many write calls
+        for ver in ["V1", "V2", "V3", "V4"] {
+            for (kind, opts) in [("multi", "full"), ("large", "plain"), ("large", "full")] {
+                if kind == "large" && (ver == "V2" || ver == "V3") {
+                    continue;
+                }
+                for present in [true, false] {
+                    v.push(History {
+                        label: format!("build {ver} dest_present={present} payload={kind} options={opts}"),
+                        drv: vec!["build".into(), ver.into(), "DEST".into(), kind.into(), opts.into()],
+                        dest_present: present,
+                        compact: false,
+                        expect_new: payload(kind),
+                        expect_old: if present { previous_content() } else { vec![] },
+                    });
+                }
+            }
+        }
+    }
     // rebuild_archive writes its target through the same builder path: target present / absent
     for present in [true, false] {
         if tier == Tier::Quick && !present {
@@ -119,7 +151,14 @@ fn histories(tier: Tier) -> Vec<History> {
     }
     // compact: an archive with a removed and a replaced entry; logical content is the same before and after
     let keep = vec![("keep\\k1.txt".to_string(), b"kept one".to_vec()), ("keep\\k2.bin".to_string(), gen::content("period2", 900, 4096, 4))];
-    v.push(History { label: "compact V1 (deleted + replaced entries)".into(), drv: vec!["compact".into(), "DEST".into()], dest_present: true, compact: true, expect_new: keep.clone(), expect_old: keep });
+    v.push(History { label: "compact V1 (deleted + replaced entries)".into(), drv: vec!["compact".into(), "DEST".into()], dest_present: true, compact: true, expect_new: keep.clone(), expect_old: keep.clone() });
+    if tier == Tier::Thorough {
+        // a V2 archive, and one whose kept members need many write calls when they are copied
+        v.push(History { label: "compact V2 (deleted + replaced entries)".into(), drv: vec!["compact".into(), "DEST".into()], dest_present: true, compact: true, expect_new: keep.clone(), expect_old: keep.clone() });
+        let mut big = keep.clone();
+        big.extend(payload("large"));
+        v.push(History { label: "compact V1 large (deleted + replaced entries, 62 kept members)".into(), drv: vec!["compact".into(), "DEST".into()], dest_present: true, compact: true, expect_new: big.clone(), expect_old: big });
+    }
     v
 }
 /// put the destination into its starting state; returns the bytes it holds (None = absent)
@@ -136,7 +175,8 @@ fn prepare(h: &History, dest: &Path) -> Option<Vec<u8>> {
         }
     }
     if h.compact {
-        let mut b = ArchiveBuilder::new().version(FormatVersion::V1).block_size(3).listfile_option(ListfileOption::Generate);
+        let ver = if h.label.contains("V2") { FormatVersion::V2 } else { FormatVersion::V1 };
+        let mut b = ArchiveBuilder::new().version(ver).block_size(3).listfile_option(ListfileOption::Generate);
         for (n, d) in &h.expect_old {
             b = b.add_file_data(d.clone(), n);
         }
